@@ -415,6 +415,175 @@ def opDedup (j : Json) : Except String Json := do
     ("raw_manifest", jBOpt r.rawManifest),
     ("id_manifest", jB (match r.rawManifest with | some m => m | none => dirManifest r.entries))]
 
+/-! #### C07 identity logic (digests supplied by the harness) -/
+
+def opIdLogic (j : Json) : Except String Json := do
+  let hAttr ← getB j "h_attr"
+  let hRaw ← getBOpt j "h_raw"
+  let explicitId ← getB j "explicit_id"
+  let id := Identity.idLogic hAttr hRaw explicitId
+  let chk := match Identity.checkLogic hAttr hRaw id with | .ok _ => Json.str "ok" | .error e => jErr e
+  let tag ← getS j "kind"
+  pure <| Json.mkObj [("id", jB id), ("check", chk),
+    ("tag", match Identity.swhidTag tag with | some t => Json.str t | none => Json.null)]
+
+/-! #### C10 / C14 Merkle histories -/
+
+namespace MerkleDrv
+open Swh.Merkle
+
+partial def termJ : HTerm → Json
+  | .node d ks => Json.arr #[Json.num (JsonNumber.fromNat d),
+      Json.arr (ks.map (fun kv => Json.arr #[jB kv.1, termJ kv.2])).toArray]
+
+def entJ (e : EntryV HTerm) : Json :=
+  Json.arr #[jB e.name, Json.bool e.isDir, Json.num (JsonNumber.fromNat e.cdata), termJ e.target]
+
+def outJ (h : Heap HTerm) : Out HTerm → Json
+  | .unit => Json.arr #[Json.str "unit"]
+  | .newId n => Json.arr #[Json.str "id", Json.num (JsonNumber.fromNat n)]
+  | .hash v => Json.arr #[Json.str "hash", termJ v]
+  | .ids l => Json.arr #[Json.str "ids", Json.arr (l.map (fun i =>
+      Json.arr #[Json.num (JsonNumber.fromNat i),
+        match (h.get i).cache with | some v => termJ v | none => Json.null])).toArray]
+  | .bool b => Json.arr #[Json.str "bool", Json.bool b]
+  | .entries es => Json.arr #[Json.str "ent", Json.arr (es.map entJ).toArray]
+  | .model es v => Json.arr #[Json.str "mod", Json.arr (es.map entJ).toArray, termJ v]
+  | .err .keyError => Json.arr #[Json.str "err", Json.str "KeyError"]
+  | .err .valueError => Json.arr #[Json.str "err", Json.str "ValueError"]
+  | .err .badId => Json.arr #[Json.str "err", Json.str "badId"]
+  | .err .outOfModel => Json.arr #[Json.str "err", Json.str "outOfModel"]
+
+def getNames (a : Array Json) (start : Nat) : Except String (List Bytes) :=
+  (a.toList.drop start).mapM (fun x => do let s ← x.getStr?; unhexStr s)
+
+def parseOp (j : Json) : Except String Op := do
+  let a ← j.getArr?
+  let tag ← a[0]!.getStr?
+  match tag with
+  | "new" => pure (.newNode (← a[1]!.getNat?) (← a[2]!.getBool?) (← a[3]!.getBool?))
+  | "set" => pure (.setItem (← a[1]!.getNat?) (← getNames a 3) (← a[2]!.getNat?))
+  | "del" => pure (.delItem (← a[1]!.getNat?) (← getNames a 2))
+  | "upd" => do
+      let kids ← (← a[2]!.getArr?).toList.mapM (fun kv => do
+        let p ← kv.getArr?
+        let s ← p[0]!.getStr?
+        let nm ← unhexStr s
+        let c ← p[1]!.getNat?
+        pure (nm, c))
+      pure (.update (← a[1]!.getNat?) kids)
+  | "hash" => pure (.readHash (← a[1]!.getNat?))
+  | "force" => pure (.forceUpdate (← a[1]!.getNat?))
+  | "ent" => pure (.readEntries (← a[1]!.getNat?))
+  | "mod" => pure (.readModel (← a[1]!.getNat?))
+  | "coll" => pure (.collect (← a[1]!.getNat?))
+  | "reset" => pure (.resetCollect (← a[1]!.getNat?))
+  | "has" => pure (.contains (← a[1]!.getNat?) (← getNames a 2))
+  | _ => throw s!"bad merkle op {tag}"
+
+def opRun (j : Json) : Except String Json := do
+  let ops ← (← getArr j "ops").toList.mapM parseOp
+  let (_, outs) := ops.foldl (fun (acc : Heap HTerm × Array Json) op =>
+    let r := step HTerm.hashFn acc.1 op
+    (r.1, acc.2.push (outJ r.1 r.2))) (Heap.empty, #[])
+  pure <| Json.mkObj [("outs", Json.arr outs)]
+
+end MerkleDrv
+
+/-! #### C08 / C09 SWHIDs -/
+
+def cpsToStr (l : List Nat) : Str := l.map Char.ofNat
+def strToCps (s : Str) : List Nat := s.map Char.toNat
+
+def jBase (b : BaseSwhid) : Json :=
+  Json.mkObj [("type", jCps (strToCps b.objectType)), ("id", jB b.objectId)]
+
+def jBaseOpt : Option BaseSwhid → Json
+  | none => Json.null
+  | some b => jBase b
+
+def jValue : Value → Json
+  | .core v => Json.mkObj [("cls", Json.str "core"), ("base", jBase v)]
+  | .extended v => Json.mkObj [("cls", Json.str "extended"), ("base", jBase v)]
+  | .qualified v => Json.mkObj [("cls", Json.str "qualified"), ("base", jBase v.base),
+      ("origin", match v.origin with | some o => jCps (strToCps o) | none => Json.null),
+      ("visit", jBaseOpt v.visit), ("anchor", jBaseOpt v.anchor), ("path", jBOpt v.path),
+      ("lines", match v.lines with
+        | none => Json.null
+        | some (a, none) => Json.arr #[Json.num (JsonNumber.fromNat a), Json.null]
+        | some (a, some b) => Json.arr #[Json.num (JsonNumber.fromNat a), Json.num (JsonNumber.fromNat b)])]
+
+def clsOf (s : String) : Except String SwhidClass :=
+  match s with
+  | "core" => pure .core
+  | "extended" => pure .extended
+  | "qualified" => pure .qualified
+  | _ => throw s!"bad class {s}"
+
+def opSwhidParse (j : Json) : Except String Json := do
+  let cls ← clsOf (← getS j "cls")
+  let s := cpsToStr (← getCps j "s")
+  let il := inLang cls s
+  let ilw := inLangW (some maxDigits) cls s
+  match parseSwhid cls s with
+  | .ok v => pure <| Json.mkObj [("ok", jValue v), ("print", jCps (strToCps (printValue v))),
+      ("inlang", Json.bool il), ("inlang_limit", Json.bool ilw)]
+  | .error e => pure <| Json.mkObj [("err", jErr e), ("inlang", Json.bool il), ("inlang_limit", Json.bool ilw)]
+
+def getBase (j : Json) : Except String BaseSwhid := do
+  let t ← getCps j "type"
+  let i ← getB j "id"
+  pure ⟨cpsToStr t, i⟩
+
+def getBaseOpt (j : Json) (k : String) : Except String (Option BaseSwhid) :=
+  match j.getObjVal? k with
+  | .ok Json.null => pure none
+  | .error _ => pure none
+  | .ok b => do let x ← getBase b; pure (some x)
+
+def opSwhidPrint (j : Json) : Except String Json := do
+  let cls ← clsOf (← getS j "cls")
+  let b ← getBase (← j.getObjVal? "base")
+  let v : Value ← match cls with
+    | .core => pure (Value.core b)
+    | .extended => pure (Value.extended b)
+    | .qualified => do
+      let origin ← match j.getObjVal? "origin" with
+        | .ok Json.null => pure none
+        | .error _ => pure none
+        | .ok _ => do let c ← getCps j "origin"; pure (some (cpsToStr c))
+      let visit ← getBaseOpt j "visit"
+      let anchor ← getBaseOpt j "anchor"
+      let path ← getBOpt j "path"
+      let lines ← match j.getObjVal? "lines" with
+        | .ok (Json.arr a) => do
+            let x ← a[0]!.getNat?
+            match a[1]! with
+            | Json.null => pure (some (x, none))
+            | y => do let yy ← y.getNat?; pure (some (x, some yy))
+        | _ => pure none
+      pure (Value.qualified ⟨b.objectType, b.objectId, origin, visit, anchor, path, lines⟩)
+  let txt := printValue v
+  let back := match parseSwhid cls txt with
+    | .ok v' => jValue v'
+    | .error e => jErr e
+  let conv := match v with
+    | .core b => Json.mkObj [
+        ("ext", match toExtended b with | .ok e => jCps (strToCps (printValue (.extended e))) | .error e => jErr e),
+        ("qual", match toQualified b with | .ok q => jCps (strToCps (printValue (.qualified q))) | .error e => jErr e)]
+    | _ => Json.null
+  pure <| Json.mkObj [("text", jCps (strToCps txt)), ("back", back), ("inlang", Json.bool (inLang cls txt)), ("conv", conv)]
+
+def opSwhidCodec (j : Json) : Except String Json := do
+  let f ← getS j "f"
+  match f with
+  | "unquote" => pure <| Json.mkObj [("s", jCps (strToCps (pyUnquote (cpsToStr (← getCps j "s")))))]
+  | "escape" => pure <| Json.mkObj [("s", jCps (strToCps (escapeOrigin (cpsToStr (← getCps j "s")))))]
+  | "unq2b" => pure <| Json.mkObj [("b", jB (unquoteToBytes (cpsToStr (← getCps j "s"))))]
+  | "quote" => pure <| Json.mkObj [("s", jCps (strToCps (quoteFromBytes (← getB j "b"))))]
+  | "space" => pure <| Json.mkObj [("cps", jNats ((List.range 0x110000).filter (fun n => n.isValidChar && isPySpace (Char.ofNat n))))]
+  | _ => throw s!"bad codec {f}"
+
 def dispatch (op : String) (j : Json) : Except String Json :=
   match op with
   | "ping" => pure (Json.mkObj [("pong", Json.bool true)])
@@ -442,6 +611,11 @@ def dispatch (op : String) (j : Json) : Except String Json :=
   | "mh_stream" => opMhStream j
   | "mh_copy" => opMhCopy j
   | "dedup" => opDedup j
+  | "id_logic" => opIdLogic j
+  | "merkle_run" => MerkleDrv.opRun j
+  | "swhid_parse" => opSwhidParse j
+  | "swhid_print" => opSwhidPrint j
+  | "swhid_codec" => opSwhidCodec j
   | _ => throw s!"unknown op {op}"
 
 def handleLine (line : String) : String :=
